@@ -36,6 +36,7 @@ ASSUMPTIONS = [
     'table_id is compared in the document, not on read-back (the statement '
     'does not list it)',
 ]
+ANCHORS = ['Table.to_json', 'Table.from_json', 'NpEncoder.default', 'parse_biom_table', 'load_table']
 REQUIRED = ['writer_string_form', 'writer_direct_io_form',
             'reader_load_table', 'reader_load_table_gz',
             'reader_parse_table_handle', 'reader_parse_table_chunks',
